@@ -1,6 +1,6 @@
 (** C15 — requests and responses cross the proxy with only the configured changes. *)
 From Coq Require Import List Arith Bool NArith ZArith.
-From Pike Require Import Base.Bytes Model.MaxAge Model.Resp Model.Proxy Proofs.ProxyProofs.
+From Pike Require Import Base.Bytes Model.MaxAge Model.Resp Model.Proxy Proofs.ProxyProofs Model.Rewrite Proofs.RewriteProofs.
 Import ListNotations.
 
 Section C15.
@@ -92,3 +92,53 @@ Example C15_nonvacuous :
   let u := upstream_request (fun p => p) true l [] rq in
   rq_headers u = [([88;45;65]%N, [49]%N); ([88;45;66]%N, [50]%N)] /\ rq_query u = [120;61;49;38;97;61;49]%N.
 Proof. vm_compute. split; reflexivity. Qed.
+
+(** ** the configured path rewrite (rules "pattern:target" of the documented
+    forms: literal path bytes and [*] wildcards; [$1]..[$9] in the target) *)
+
+(** a path that no rule matches reaches the upstream unchanged *)
+Theorem C15_rewrite_unmatched : forall rules path,
+  Forall (fun r => find_match (r_items r) path = None) rules -> rewrite_path rules path = path.
+Proof. exact rewrite_unmatched. Qed.
+Print Assumptions C15_rewrite_unmatched.
+
+(** whenever the path contains an instance of the pattern (any prefix, any
+    groups without blanks, any rest) the rule fires, and its result is the
+    target instantiated with groups that really occur in the path in order *)
+Theorem C15_rewrite_matched : forall r path pre caps rest,
+  length caps = stars (r_items r) -> Forall group_ok caps ->
+  path = pre ++ render (r_items r) caps ++ rest ->
+  exists caps' pre' rest',
+    apply_rule r path = expand caps' (r_value r) /\
+    length caps' = stars (r_items r) /\ Forall group_ok caps' /\
+    path = pre' ++ render (r_items r) caps' ++ rest'.
+Proof. exact apply_rule_matched. Qed.
+Print Assumptions C15_rewrite_matched.
+
+(** [$d] (1 <= d <= 9, d not beyond the number of groups) stands for group d
+    whatever follows it; every other byte of the target is copied *)
+Theorem C15_rewrite_token : forall caps d rest,
+  (49 <= d)%N -> (d <= 57)%N -> (N.to_nat (d - 48) <= length caps)%nat ->
+  expand caps (36%N :: d :: rest) = nth (N.to_nat (d - 49)) caps [] ++ expand caps rest.
+Proof. exact expand_token. Qed.
+Print Assumptions C15_rewrite_token.
+
+Theorem C15_rewrite_target_without_tokens : forall caps v,
+  (forall c, In c v -> c <> 36%N) -> expand caps v = v.
+Proof. exact expand_plain. Qed.
+Print Assumptions C15_rewrite_target_without_tokens.
+
+Theorem C15_rewrite_pattern_without_wildcard : forall r path,
+  stars (r_items r) = 0%nat -> find_match (r_items r) path <> None -> apply_rule r path = r_value r.
+Proof. exact apply_rule_literal. Qed.
+Print Assumptions C15_rewrite_pattern_without_wildcard.
+
+(** non-vacuity: "/files/*/thumb:/thumbs/$1_small" on "/files/abc/thumb" gives "/thumbs/abc_small" *)
+Example C15_rewrite_nonvacuous :
+  let s := fun (l : list nat) => map N.of_nat l in
+  match parse_rules [s [47;102;105;108;101;115;47;42;47;116;104;117;109;98;58;47;116;104;117;109;98;115;47;36;49;95;115;109;97;108;108]] with
+  | Some rs => rewrite_path rs (s [47;102;105;108;101;115;47;97;98;99;47;116;104;117;109;98])
+               = s [47;116;104;117;109;98;115;47;97;98;99;95;115;109;97;108;108]
+  | None => False
+  end.
+Proof. vm_compute. reflexivity. Qed.
